@@ -100,6 +100,12 @@ ADMIN_MODELS = [
      "setup": "setups/auth.json", "init_from_setup": True},
 ]
 
+CONFIG_MODELS = [
+    {"name": "config", "module": "Config.tla", "cfg": {"quick": "MC_ConfigQuick.cfg", "thorough": "MC_ConfigThorough.cfg"},
+     "setup": "setups/config.json", "init_from_setup": True, "timeout": {"quick": 900, "thorough": 7200}},
+]
+
+
 def txm(n, setup="setups/auth.json"):
     return {"name": "tx" + n.lower(), "module": "MC_TxShape.tla", "cfg": {"quick": f"MC_Tx{n}Quick.cfg", "thorough": f"MC_Tx{n}Thorough.cfg"},
             "setup": setup, "timeout": {"quick": 900, "thorough": 7200}}
@@ -151,7 +157,7 @@ PROPS = {
     "C07": risk_prop2(["bankruptcy"], LIQ_DRIVERS + LEDGER_DRIVERS, models=RISK_MODELS),
     "C09": risk_prop2(["borrow", "withdraw", "liquidate", "bankruptcy", "pulse_health"], LIQ_DRIVERS + RISK_DRIVERS + LEDGER_DRIVERS + STAKED_DRIVERS, models=RISK_MODELS),
     "C13": risk_prop2(["add_bank", "add_bank_staked", "init_staked_settings", "edit_staked_settings", "propagate_staked", "configure_bank", "configure_emode", "borrow", "withdraw", "pulse_health", "bankruptcy", "clone_emode"],
-                      LIQ_DRIVERS + RISK_DRIVERS + ADMIN_DRIVERS + STAKED_DRIVERS, models=RISK_MODELS),
+                      LIQ_DRIVERS + RISK_DRIVERS + ADMIN_DRIVERS + STAKED_DRIVERS, models=RISK_MODELS + CONFIG_MODELS),
     "C14": risk_prop2(["deposit", "withdraw", "borrow", "repay", "liquidate", "bankruptcy", "propagate_fee"], LIQ_DRIVERS + RISK_DRIVERS, models=GATE_MODELS),
     "C01": ledger_prop(),
     "C02": dict(ledger_prop(), drivers=LEDGER_DRIVERS + LIQ_DRIVERS),
@@ -166,6 +172,11 @@ PROPS = {
         ],
         "drivers": [{"name": "panic", "args": {"quick": [300, 60], "thorough": [5000, 120]}}],
         "validate": ["C15"],
+        # unbounded time / unbounded histories: inductive invariant of the same operators (PanicImpl.tla), by Apalache
+        "proofs": [{"module": "PanicInd.tla", "timeout": 900, "obligations": [
+            ["--init=Init", "--inv=IndInv", "--length=0"],
+            ["--init=IndInit", "--inv=IndInv", "--length=1"],
+            ["--init=IndInit", "--inv=Safety", "--length=0"]]}],
         "nontrivial": ev_ok(["panic_pause", "panic_unpause", "panic_unpause_perm", "propagate_fee", "deposit"]),
         "rule": "each executed instruction is one evaluation; non-trivial = pause/unpause/propagate/probe instructions; distinct by (instruction, result, error)",
         "min_nontrivial": 50,
